@@ -7,6 +7,12 @@ Streams
             variant writes the grammar, updates some weights IN PLACE and writes it again (the second
             document must round-trip to the updated weights),
             judged by Model.JsonCheck.c14_fgg_check (oracle hrg_iso_b + exact comparison with the model).
+            The model's view of the original grammar takes its rules from the add_rule calls the harness made
+            (b.ref), not from g._rules.  Extra cases with REPEATED rules (add_dups): the same rule object
+            added twice, r.copy(), a rebuilt equal rule (same explicit ids, new objects), a near copy (one id
+            renamed), an isomorphic copy; and documents in which a rule is listed 2-3 times verbatim
+            (rule count, verbatim second round trip, sum-product invariant under renaming the copy's ids;
+            with all ids explicit also judged by c14_fgg_check against a reference read off the document).
   weights : patterned weight specifications (physical/expand/vaxes/default) fed to json_to_weights,
             judged against the denotational reading spec_denote (c14_weights_check); PatternedTensors
             built with fggs.indices written out with weights_to_json (c14_wtojson_check).
@@ -95,6 +101,8 @@ ASSUMPTIONS = [
     "weights_to_json is modelled by its result (the dense nested list of the PatternedTensor's denotation), not through PatternedTensor.__iter__/dim_to_dense (that machinery belongs to C06); it is compared with the implementation on every pattern kind",
     "finite float weights are passed as exact rationals (Fraction(float)); NaN is not generated",
     "PatternedTensor.__post_init__'s squeezing of size-1 physical axes is not modelled (it does not change the denotation); the harness reads physical/paxes/vaxes/default off the live object after it",
+    "the original grammar handed to the model has the rules the harness passed to HRG.add_rule, in call order per left-hand side (an HRG is a list of rules per lhs; repeated rules count twice); for documents with a repeated rule the reference grammar is read off the document by the harness (Graph/Node/Edge only) and c14_fgg_check verifies that the model writes exactly that document for it",
+    "documents with a repeated rule: the rule count and the invariance of sum_product under renaming the ids of the copy are compared in Python (metamorphic smoke test, tolerance 1e-6 relative); the Coq-judged part is the isomorphism / second-round-trip verdict",
     "sum_product before/after the round trip is compared in Python (|a-b| <= 1e-9, inf exactly): an end-to-end smoke test on top of the dense-weights comparison, not a verified oracle",
 ]
 
@@ -159,9 +167,11 @@ def graphw(g, idn):
     ns = [nodew(v, idn) for v in g.nodes()]
     es = [(elw(e.label), [nodew(v, idn) for v in e.nodes], idn.nid(e.id)) for e in g.edges()]
     return (ns, es, [nodew(v, idn) for v in g.ext])
-def hrgw(h, idn):
+def hrgw(h, idn, rules=None):
+    """rules: the reference rule table {lhs: [HRGRule]} kept by the harness (the add_rule calls it made, in
+    order); None = read the rules off the object (only for objects the implementation returned)"""
     labels = [elw(l) for l in h.edge_labels()]
-    rules = [(elw(lhs), [(elw(r.lhs), graphw(r.rhs, idn)) for r in rs]) for lhs, rs in h._rules.items()]
+    rules = [(elw(lhs), [(elw(r.lhs), graphw(r.rhs, idn)) for r in rs]) for lhs, rs in (h._rules if rules is None else rules).items()]
     return (labels, elw(h.start), rules)
 
 def axisw(e, paxes):
@@ -199,10 +209,10 @@ def facw(f):
     if isinstance(f, fggs.FiniteFactor): return ("WFinite", ptw(f.weights))
     raise ValueError(f)
 
-def fggw(g, idn, is_fgg):
+def fggw(g, idn, is_fgg, rules=None):
     if is_fgg:
-        return (hrgw(g, idn), [(S(k), domw(d)) for k, d in g.domains.items()], [(S(k), facw(f)) for k, f in g.factors.items()])
-    return (hrgw(g, idn), [], [])
+        return (hrgw(g, idn, rules), [(S(k), domw(d)) for k, d in g.domains.items()], [(S(k), facw(f)) for k, f in g.factors.items()])
+    return (hrgw(g, idn, rules), [], [])
 
 def errkind(e):
     if isinstance(e, AssertionError): return "AssertErr"
@@ -334,6 +344,41 @@ def gen_patterned(rng, shape, kinds):
     if default != 0.0: kinds.add("default!=0")
     return PatternedTensor(t, tuple(paxes), tuple(vaxes), default)
 
+DUP_KINDS = ["same-object", "copy", "rebuilt-equal", "rebuilt-equal", "near", "iso"]
+
+def add_dups(rng, spec, max_dups=2):
+    """Append to the spec rules that repeat an earlier rule: entries {dup_of: index of the original in the new
+    rule list, dup_kind}.  Kinds (see build_hrg_c14): 'same-object' add_rule(r) a second time; 'copy'
+    add_rule(r.copy()) (equal, same Node/Edge objects, also with implicit ids); 'rebuilt-equal' a new Graph of new
+    Node/Edge objects carrying the same explicit ids (equal but not identical when every id is explicit);
+    'near' the same with ONE explicit id renamed (not equal); 'iso' the same shape under fresh ids.
+    The copy is placed right after the original, later among the rules of the same left-hand side, or
+    after all rules (an HRG is a list of rules per left-hand side: a repeated rule counts twice)."""
+    s = dict(spec)
+    rules = [dict(r) for r in spec["rules"]]
+    if not rules: return s
+    feats = set(spec["features"])
+    for _ in range(rng.randint(1, max_dups)):
+        k = rng.randrange(len(rules))
+        src = rules[k]
+        while "dup_of" in src and src["dup_kind"] in ("same-object", "copy"):   # copy of a copy: refer to the original
+            k = src["dup_of"]; src = rules[k]
+        kind = rng.choice(DUP_KINDS)
+        d = dict(lhs=src["lhs"], nodes=list(src["nodes"]), edges=[(el, list(att)) for el, att in src["edges"]], ext=list(src["ext"]),
+                 dup_of=k, dup_kind=kind)
+        where = rng.choice(["adjacent", "end", "end"])
+        if where == "adjacent":
+            pos = k + 1
+            for r in rules:
+                if r.get("dup_of", -1) >= pos: r["dup_of"] += 1
+            rules.insert(pos, d)
+        else:
+            rules.append(d)
+        feats.add("dup_rule:" + kind)
+    s["rules"] = rules
+    s["features"] = sorted(feats)
+    return s
+
 ID_POOL = ["n%d", "v%d", "Z%d", "%d", "a%d", "%d0", "x", "y", "b", "9", "10", "1", "2"]
 
 def build_hrg_c14(spec, ids, rng, cls):
@@ -360,21 +405,42 @@ def build_hrg_c14(spec, ids, rng, cls):
             k += 1
         rng.shuffle(out)
         return out
+    built = []       # per spec rule: (rule, nodes, edges, node names, edge names, node-explicit flags, edge-explicit flags)
+    b.ref = {}       # the reference rule table: lhs -> rules in the order of the add_rule calls made here
     for r in spec["rules"]:
-        g = fggs.Graph()
         def expl():
             return ids == "explicit" or (ids == "mixed" and rng.random() < 0.5)
-        nn = names(len(r["nodes"])); en = names(len(r["edges"]))
-        nodes = [fggs.Node(b.nls[nl], id=nn[k] if expl() else None) for k, nl in enumerate(r["nodes"])]
-        for n in nodes: g.add_node(n)
-        edges = []
-        for k, (el, att) in enumerate(r["edges"]):
-            e = fggs.Edge(b.els[el], [nodes[i] for i in att], id=en[k] if expl() else None)
-            g.add_edge(e); edges.append(e)
-        g.ext = [nodes[i] for i in r["ext"]]
-        rule = fggs.HRGRule(b.els[r["lhs"]], g)
+        kind = r.get("dup_kind")
+        src = built[r["dup_of"]] if kind else None
+        if kind == "same-object":
+            rule, nodes, edges, nn, en, nx, ex = src
+        elif kind == "copy":
+            rule, nodes, edges, nn, en, nx, ex = (src[0].copy(),) + src[1:]
+        else:
+            if kind in ("rebuilt-equal", "near"):
+                nn, en, nx, ex = list(src[3]), list(src[4]), list(src[5]), list(src[6])
+                if kind == "near":
+                    cand = [("n", i) for i, x in enumerate(nx) if x] + [("e", i) for i, x in enumerate(ex) if x]
+                    if cand:
+                        t, i = rng.choice(cand)
+                        if t == "n": nn[i] = nn[i] + "'"
+                        else: en[i] = en[i] + "'"
+            else:
+                nn = names(len(r["nodes"])); en = names(len(r["edges"]))
+                nx = [expl() for _ in r["nodes"]]; ex = [expl() for _ in r["edges"]]
+            g = fggs.Graph()
+            nodes = [fggs.Node(b.nls[nl], id=nn[k] if nx[k] else None) for k, nl in enumerate(r["nodes"])]
+            for n in nodes: g.add_node(n)
+            edges = []
+            for k, (el, att) in enumerate(r["edges"]):
+                e = fggs.Edge(b.els[el], [nodes[i] for i in att], id=en[k] if ex[k] else None)
+                g.add_edge(e); edges.append(e)
+            g.ext = [nodes[i] for i in r["ext"]]
+            rule = fggs.HRGRule(b.els[r["lhs"]], g)
         h.add_rule(rule)
+        built.append((rule, nodes, edges, nn, en, nx, ex))
         b.rules.append((rule, nodes, edges))
+        b.ref.setdefault(b.els[r["lhs"]], []).append(rule)
     b.hrg = h
     return b
 
@@ -384,6 +450,7 @@ def build_case(rng, spec, is_fgg, ids):
     info = dict(ids=ids, is_fgg=is_fgg, domains=[], weights=[], kinds=set())
     b = build_hrg_c14(spec, ids, rng, fggs.FGG if is_fgg else fggs.HRG)
     g = b.hrg
+    info["ref"] = b.ref
     if not is_fgg:
         return g, info
     for i, size in enumerate(spec["nlabels"]):
@@ -516,14 +583,14 @@ def inplace_update(rng, g):
             n += 1
     return n
 
-def positions(g, g2):
+def positions(g, g2, rules=None):
     """For every pair of rules (all_rules order) the bijection (node positions, edge positions) handed to
     the verified checker hrg_iso_b.  The candidate read off the code (rank in sorted(str(id)) order) is
     tried first; if the Python mirror of the checker does not like it, any other bijection is searched
     for, so that an implementation which merely orders nodes/edges differently is not accused of
     breaking the property (it will still differ from the model: a 'no failing input' report)."""
     out = []
-    for lhs, rs in g._rules.items():
+    for lhs, rs in (g._rules if rules is None else rules).items():
         rs2 = g2.rules(lhs)                 # the checker aligns the rules of g2 to the key order of g
         for k, r in enumerate(rs):
             pn, pe = _rank_positions(r)
@@ -533,7 +600,7 @@ def positions(g, g2):
             out.append((pn, pe))
     return out
 
-def roundtrip(g, is_fgg, second):
+def roundtrip(g, is_fgg, second, rules=None):
     """returns the rt_obs wire value (and the live objects for further use)"""
     import fggs
     to_json = fggs.fgg_to_json if is_fgg else fggs.hrg_to_json
@@ -554,11 +621,28 @@ def roundtrip(g, is_fgg, second):
     if second:
         j2 = json.loads(json.dumps(to_json(g2)))
     idn2 = IdNum()
-    return ("ObsOk", (jw(j), fggw(g2, idn2, is_fgg), positions(g, g2), None if j2 is None else jw(j2))), j, (g2, j2)
+    return ("ObsOk", (jw(j), fggw(g2, idn2, is_fgg), positions(g, g2, rules), None if j2 is None else jw(j2))), j, (g2, j2)
 
-def all_explicit(g):
-    return all(isinstance(v.id, str) for r in g.all_rules() for v in r.rhs.nodes()) and \
-           all(isinstance(e.id, str) for r in g.all_rules() for e in r.rhs.edges())
+def doc_rules(jg, g):
+    """the rules of a grammar document as {lhs: [HRGRule]} in document order, built with Graph/Node/Edge
+    only (no HRG container involved); labels are looked up in g"""
+    import fggs
+    out = {}
+    for r in jg["rules"]:
+        rhs = fggs.Graph(); nodes = []
+        for n in r["rhs"]["nodes"]:
+            v = fggs.Node(g.get_node_label(n["label"]), id=n.get("id")); nodes.append(v); rhs.add_node(v)
+        for e in r["rhs"]["edges"]:
+            rhs.add_edge(fggs.Edge(g.get_edge_label(e["label"]), [nodes[i] for i in e["attachments"]], id=e.get("id")))
+        rhs.ext = [nodes[i] for i in r["rhs"]["externals"]]
+        lhs = g.get_edge_label(r["lhs"])
+        out.setdefault(lhs, []).append(fggs.HRGRule(lhs, rhs))
+    return out
+
+def all_explicit(g, rules=None):
+    rs = list(g.all_rules()) if rules is None else [r for l in rules.values() for r in l]
+    return all(isinstance(v.id, str) for r in rs for v in r.rhs.nodes()) and \
+           all(isinstance(e.id, str) for r in rs for e in r.rhs.edges())
 
 def dense_equal(a, b, tol=0.0):
     import torch
@@ -775,7 +859,8 @@ def run(tier, seed):
     samples = []
 
     # ---------------- grammar stream
-    n_g = 420 if quick else 6000
+    n_g0 = 420 if quick else 6000
+    n_g = n_g0 + (80 if quick else 1200)        # the last ones with repeated rules (add_dups)
     vals, metas, lives = [], [], []
     for i in range(n_g):
         is_fgg = rng.random() < 0.6
@@ -790,8 +875,13 @@ def run(tier, seed):
                 spec["nlabels"][k1] = 1                                   # a domain with a single value
                 spec["features"] = sorted(set(spec["features"]) | {"singleton_domain"})
         ids = rng.choice(["explicit", "explicit", "implicit", "mixed", "mixed"])
+        if i >= n_g0:
+            # repeated rules: the same rule object added twice, equal copies (identical ids), near copies
+            spec = add_dups(rng, spec)
+            ids = rng.choice(["explicit", "explicit", "explicit", "implicit", "mixed"])
         try:
             g, info = build_case(rng, spec, is_fgg, ids)
+            ref = info.pop("ref")
         except Exception as e:
             violations.append(Violation("harness could not build the grammar: %r" % (e,), case=gen.spec_jsonable(spec),
                                         corr="harness", failing_input_found=False)); continue
@@ -807,10 +897,13 @@ def run(tier, seed):
                 violations.append(Violation("first fgg_to_json / in-place update raised %r" % (e,), case=gen.spec_jsonable(spec),
                                             call="fgg_to_json", corr="corr:roundtrip", failing_input_found=False)); continue
         idn = IdNum()
-        gw = fggw(g, idn, is_fgg)
-        second = all_explicit(g) or rng.random() < 0.3
+        # the model's view of the grammar: the rules are the ones the harness passed to add_rule (ref), in
+        # that order -- not what the container chose to keep
+        gw = fggw(g, idn, is_fgg, ref)
+        all_x = all_explicit(g, ref)
+        second = all_x or rng.random() < 0.3
         try:
-            obs, j, extra = roundtrip(g, is_fgg, second)
+            obs, j, extra = roundtrip(g, is_fgg, second, ref)
         except Exception as e:
             violations.append(Violation("round trip raised an unexpected exception %r" % (e,), case=gen.spec_jsonable(spec),
                                         call="fgg_to_json/json_to_fgg", corr="corr:roundtrip")); continue
@@ -819,15 +912,89 @@ def run(tier, seed):
         meta = dict(spec=gen.spec_jsonable(spec), ids=ids, is_fgg=is_fgg, json=j, info=dict(info, kinds=sorted(info["kinds"])),
                     unused_labels=[gen.el_name(spec, u) for u in unused],
                     factor_on_unused_terminal=bool(info.get("factor_on_unused")), history=history)
-        metas.append(meta); lives.append((g, extra))
+        metas.append(meta); lives.append((all_x, extra))
         bump("ids", ids); bump("kind", "fgg" if is_fgg else "hrg")
         bump("start_arity", len(spec["elabels"][spec["start"]]["type"]))
         for d in info["domains"]: bump("domains", d)
         for w in info["weights"]: bump("weights", w)
         for k in info["kinds"]: bump("pattern_kinds", k)
         for f in spec["features"]: bump("features", f)
-        if all_explicit(g): bump("features", "all_ids_explicit")
+        if all_x: bump("features", "all_ids_explicit")
+        n_equal = sum(1 for rs in ref.values() for a in range(len(rs)) for b2 in range(a) if rs[a] == rs[b2])
+        if n_equal:
+            bump("features", "equal_rules_same_lhs"); meta["equal_rule_pairs"] = n_equal
+            if all_x: bump("features", "equal_rules_same_lhs,all_ids_explicit")
         if history: bump("features", "history:write,update-in-place,write")
+    # ---------------- repeated rules in the DOCUMENT: a rule listed twice counts twice
+    # A rule of the written document is repeated verbatim (same node and edge ids: an exact duplicate when
+    # every id is explicit) inside the block of its left-hand side; the reference document repeats it
+    # with the explicit ids of the copy renamed.  Renaming ids changes neither the number of rules nor the
+    # sum-product, so both documents must load to grammars with one more rule and the same sum-product,
+    # and the exact-duplicate document must be reproduced verbatim by a second round trip.
+    def sp(gg):
+        z = fggs.sum_product(gg, method="fixed-point", semiring=fggs.RealSemiring())
+        return z.to_dense() if hasattr(z, "to_dense") else z
+    n_dd = 40 if quick else 400
+    dd_done = 0; dd_exact = 0
+    for i in range(n_dd):
+        spec = prune_spec(gen.random_spec(rng, recursive=False, max_dom=rng.choice([2, 3, 4]), allow_inf=False))
+        ids = rng.choice(["explicit", "explicit", "explicit", "mixed"])
+        case = dict(spec=gen.spec_jsonable(spec), ids=ids)
+        try:
+            g, info = build_case(rng, spec, True, ids)
+            info.pop("ref")
+            if any(isinstance(f, fggs.ConstantFactor) for f in g.factors.values()): continue
+            j = json.loads(json.dumps(fggs.fgg_to_json(g)))
+            rules = j["grammar"]["rules"]
+            k = rng.randrange(len(rules))
+            times = rng.choice([1, 1, 2])
+            same_lhs = [q for q, r in enumerate(rules) if r["lhs"] == rules[k]["lhs"]]
+            pos = rng.choice([k + 1, same_lhs[-1] + 1])
+            def renamed(r, tag):
+                r = copy.deepcopy(r)
+                for x in r["rhs"]["nodes"] + r["rhs"]["edges"]:
+                    if "id" in x: x["id"] = x["id"] + tag
+                return r
+            j_dup = copy.deepcopy(j); j_ren = copy.deepcopy(j)
+            for t in range(times):
+                j_dup["grammar"]["rules"].insert(pos, copy.deepcopy(rules[k]))
+                j_ren["grammar"]["rules"].insert(pos, renamed(rules[k], "~%d" % t))
+            exact = all("id" in x for x in rules[k]["rhs"]["nodes"] + rules[k]["rhs"]["edges"])
+            case.update(json=j_dup, repeated_rule=k, times=times, exact_duplicate=exact)
+            g_dup = fggs.json_to_fgg(copy.deepcopy(j_dup)); g_ren = fggs.json_to_fgg(copy.deepcopy(j_ren))
+            n_dup = len(list(g_dup.all_rules())); n_ren = len(list(g_ren.all_rules()))
+            z_dup = sp(g_dup); z_ren = sp(g_ren)
+            j_dup2 = json.loads(json.dumps(fggs.fgg_to_json(g_dup)))
+        except Exception as e:
+            violations.append(Violation("round trip / sum_product of a document with a repeated rule raised %r" % (e,), case=case,
+                                        corr="corr:sum_product-after-roundtrip", failing_input_found=False)); continue
+        dd_done += 1; dd_exact += bool(exact)
+        if ids == "explicit":
+            # every id explicit: also judged in Coq.  The reference grammar is read off the DOCUMENT (rule graphs
+            # built here with Graph/Node/Edge, never stored in an HRG; labels, domains, factors of the grammar the
+            # document was written from); c14_fgg_check first checks that the model writes exactly this document
+            # for it (else verdict 10), then judges json_to_fgg(doc) with the oracle hrg_iso_b.
+            try:
+                ref = doc_rules(j_dup["grammar"], g)
+                val = ([], fggw(g, IdNum(), True, ref), True,
+                       ("ObsOk", (jw(j_dup), fggw(g_dup, IdNum(), True), positions(g, g_dup, ref), jw(j_dup2))))
+            except Exception as e:
+                violations.append(Violation("harness could not encode a document with a repeated rule: %r" % (e,), case=case, corr="harness", failing_input_found=False))
+            else:
+                vals.append(val); metas.append(dict(case, is_fgg=True, history=False, info={}, document_first=True)); lives.append((True, (g_dup, j_dup2)))
+        bump("features", "document_with_repeated_rule" + (",exact_duplicate" if exact else ""))
+        want = len(rules) + times
+        if n_dup != want or n_ren != want:
+            violations.append(Violation("json_to_fgg did not keep every rule of a document in which a rule is listed more than once (rules kept: observed, rules listed: expected)",
+                                        case=case, observed=n_dup, expected=want, corr="C14_roundtrip_rule_counts (a repeated rule is kept)", call="json_to_fgg(doc)"))
+        elif len(j_dup2["grammar"]["rules"]) != want or (all_explicit(g_dup) and j_dup2["grammar"]["rules"] != j_dup["grammar"]["rules"]):
+            violations.append(Violation("fgg_to_json(json_to_fgg(doc)) does not reproduce the rule list of a document with a repeated rule",
+                                        case=case, observed=j_dup2["grammar"]["rules"], expected=j_dup["grammar"]["rules"],
+                                        corr="C14_second_roundtrip_verbatim", call="fgg_to_json(json_to_fgg(doc))"))
+        if not dense_equal(z_dup, z_ren, 1e-6 * (1.0 + float(z_ren[torch.isfinite(z_ren)].abs().max()) if bool(torch.isfinite(z_ren).any()) else 0.0)):
+            violations.append(Violation("sum_product changes when the ids of a repeated rule are renamed (a rule listed twice must count twice)",
+                                        case=case, observed=z_dup.tolist(), expected=z_ren.tolist(), corr="C14 (same sum-product)",
+                                        call="sum_product(json_to_fgg(doc))"))
     lap('grammar-impl')
     from concurrent.futures import ThreadPoolExecutor
     pool = ThreadPoolExecutor(4)
@@ -841,13 +1008,11 @@ def run(tier, seed):
     # counted in the evidence (sum_product_pattern_sensitive) and printed as a NOTE.
     n_sp = 40 if quick else 400
     sp_done = 0; sp_sensitive = []
-    def sp(gg):
-        z = fggs.sum_product(gg, method="fixed-point", semiring=fggs.RealSemiring())
-        return z.to_dense() if hasattr(z, "to_dense") else z
     for i in range(n_sp):
         spec = prune_spec(gen.random_spec(rng, recursive=False, max_dom=rng.choice([2, 3, 4]), allow_inf=False))
         try:
             g, info = build_case(rng, spec, True, rng.choice(["explicit", "implicit", "mixed"]))
+            info.pop("ref")
             if any(isinstance(f, fggs.ConstantFactor) for f in g.factors.values()): continue
             g2 = fggs.json_to_fgg(json.loads(json.dumps(fggs.fgg_to_json(g))))
             g3 = g.copy()
@@ -953,10 +1118,10 @@ def run(tier, seed):
     pool.shutdown()
     lap('model')
     byte_checked = 0
-    for v, m, c, (g, extra) in zip(vals, metas, codes, lives):
+    for v, m, c, (all_x, extra) in zip(vals, metas, codes, lives):
         bump("verdicts", "fgg:%d" % c)
         # byte comparison of the second round trip (all ids explicit)
-        if c == 0 and extra is not None and extra[1] is not None and all_explicit(g):
+        if c == 0 and extra is not None and extra[1] is not None and all_x:
             byte_checked += 1
             if json.dumps(m["json"], sort_keys=True) != json.dumps(extra[1], sort_keys=True):
                 violations.append(Violation("second round trip is not byte-identical (json.dumps, sort_keys) although the structural comparison passed",
@@ -1003,13 +1168,14 @@ def run(tier, seed):
                                     call="json_to_fgg(doc)" if m["is_fgg"] else "json_to_hrg(doc)", finding_key=key))
     if mmetas: samples.append(dict(stream="malformed", defect=mmetas[0]["defect"], observed=mmetas[0]["observed"], json=mmetas[0]["json"]))
 
-    cov = dict(timings=timings, evaluations=len(vals) + len(wvals) + len(pvals) + len(mvals) + sp_done,
+    cov = dict(timings=timings, evaluations=len(vals) + len(wvals) + len(pvals) + len(mvals) + sp_done + dd_done,
                distinct_nontrivial=distinct_g + distinct_w + distinct_p,
-               rule="grammar stream: gen.random_spec grammars (pruned of unused labels with prob. 0.9 for FGGs / 0.5 for HRGs) built with explicit/implicit/mixed ids, finite(str/int)/range domains, constant/dense/patterned factors; non-trivial = >= 2 rules, distinct by the JSON written. weights stream: random patterned specifications; non-trivial = uses a sum, product, shared or expand axis, distinct by JSON. PatternedTensor stream: non-trivial = some non-dense axis kind. Malformed and sum-product cases are counted in evaluations only.",
+               rule="grammar stream: gen.random_spec grammars (pruned of unused labels with prob. 0.9 for FGGs / 0.5 for HRGs) built with explicit/implicit/mixed ids, finite(str/int)/range domains, constant/dense/patterned factors; non-trivial = >= 2 rules, distinct by the JSON written; the model's original grammar = the add_rule calls made; plus cases with repeated rules (same object / copy() / rebuilt equal / near / iso copy, adjacent or last) and documents with a rule listed 2-3 times (all-explicit ones also through c14_fgg_check). weights stream: random patterned specifications; non-trivial = uses a sum, product, shared or expand axis, distinct by JSON. PatternedTensor stream: non-trivial = some non-dense axis kind. Malformed and sum-product cases are counted in evaluations only.",
                samples=samples, histograms=hist, kernel_reevaluated=nk + nk2 + nk3 + nk4,
-               second_roundtrip_byte_compared=byte_checked, sum_product_compared=sp_done, sum_product_pattern_sensitive=len(sp_sensitive),
+               second_roundtrip_byte_compared=byte_checked, sum_product_compared=sp_done,
+               repeated_rule_documents=dd_done, repeated_rule_documents_exact_duplicate=dd_exact, sum_product_pattern_sensitive=len(sp_sensitive),
                sum_product_pattern_sensitive_sample=sp_sensitive[:1],
-               streams=dict(grammar=len(vals), weights=len(wvals), patterned_tensors=len(pvals), malformed=len(mvals), sum_product=sp_done),
+               streams=dict(grammar=len(vals), weights=len(wvals), patterned_tensors=len(pvals), malformed=len(mvals), sum_product=sp_done, repeated_rule_documents=dd_done),
                known_finding_predicates=[],
                open_items=OPEN_ITEMS)
     return cov, violations
@@ -1035,6 +1201,13 @@ def replay(path):
         code = run_coq(MALCHK, [(jw(doc), c["is_fgg"], obs)], tag="replay")[0]
         print("defect", c["defect"], "observed", obs, "verdict code", code)
         return 1 if code else 0
+    if "repeated_rule" in c:
+        doc = c["json"]; want = len(doc["grammar"]["rules"])
+        g2 = fggs.json_to_fgg(copy.deepcopy(doc)); n = len(list(g2.all_rules()))
+        j2 = json.loads(json.dumps(fggs.fgg_to_json(g2)))
+        print("document lists %d rules; json_to_fgg kept %d; written again: %d" % (want, n, len(j2["grammar"]["rules"])))
+        same = j2["grammar"]["rules"] == doc["grammar"]["rules"] if c.get("exact_duplicate") and c.get("ids") == "explicit" else True
+        return 1 if n != want or len(j2["grammar"]["rules"]) != want or not same else 0
     if "spec" in c and "ids" not in c:
         j = c["spec"]
         def unstr(x):
@@ -1054,10 +1227,11 @@ def replay(path):
         bad = 0
         for k in range(20):
             g, info = build_case(rng, spec, c["is_fgg"], c["ids"])
+            ref = info.pop("ref")
             if c.get("history"):
                 fggs.fgg_to_json(g); inplace_update(rng, g)
-            idn = IdNum(); gw = fggw(g, idn, c["is_fgg"])
-            obs, j, extra = roundtrip(g, c["is_fgg"], True)
+            idn = IdNum(); gw = fggw(g, idn, c["is_fgg"], ref)
+            obs, j, extra = roundtrip(g, c["is_fgg"], True, ref)
             code = run_coq(FGGCHK, [(idn.dec, gw, c["is_fgg"], obs)], tag="replay")[0]
             print("attempt", k, "observation", obs[0], "verdict code", code)
             if code: bad = 1; break
@@ -1067,7 +1241,7 @@ def replay(path):
 
 MANIFEST = dict(
     level="proof",
-    text="Coq theorems about a Gallina model that follows fggs/formats.py statement by statement (as repaired by 2f3a5c1, fe13a06, 450bcaa, 38f8bd3): json_to_hrg(hrg_to_json g) is isomorphic to g for every well-formed g and every str() of the implicit ids (C14_roundtrip_iso); at the FGG level, through FGG.from_hrg, with equal domains and factors equal as dense tensors (C14_fgg_roundtrip, for every well-formed FGG: unused labels and empty dimensions included); with explicit ids the second round trip reproduces the JSON (C14_second_roundtrip, _verbatim); every attachment/external node number outside 0..n-1, negative ones included, is rejected with ValueError (C14_out_of_range_rejected, C14_out_of_range_is_ValueError); the strided to_dense of json_to_weights' result is the tensor the patterned specification denotes, with or without a 'vaxes' entry (C14_patterned_weights). The model is tied to /repo on every run by comparing JSON, grammars, dense weights and exception kinds exactly, and every implementation output is judged by the extracted oracles hrg_iso_b / spec_dense / has_oor (hrg_iso_b sound by C14_iso_oracle_sound; spec_dense is the definition C14_patterned_weights equates the model with).",
+    text="Coq theorems about a Gallina model that follows fggs/formats.py statement by statement (as repaired by 2f3a5c1, fe13a06, 450bcaa, 38f8bd3): json_to_hrg(hrg_to_json g) is isomorphic to g for every well-formed g and every str() of the implicit ids (C14_roundtrip_iso); at the FGG level, through FGG.from_hrg, with equal domains and factors equal as dense tensors (C14_fgg_roundtrip, for every well-formed FGG: unused labels and empty dimensions included); with explicit ids the second round trip reproduces the JSON (C14_second_roundtrip, _verbatim); the round trip keeps the number of rules of every left-hand side, repeated (equal) rules included, and the oracle rejects any result with another rule count whatever witness it is given (C14_roundtrip_rule_counts, C14_iso_oracle_rejects_count_mismatch, C14_check_rejects_dropped_rule); every attachment/external node number outside 0..n-1, negative ones included, is rejected with ValueError (C14_out_of_range_rejected, C14_out_of_range_is_ValueError); the strided to_dense of json_to_weights' result is the tensor the patterned specification denotes, with or without a 'vaxes' entry (C14_patterned_weights). The model is tied to /repo on every run by comparing JSON, grammars, dense weights and exception kinds exactly, and every implementation output is judged by the extracted oracles hrg_iso_b / spec_dense / has_oor (hrg_iso_b sound by C14_iso_oracle_sound; spec_dense is the definition C14_patterned_weights equates the model with).",
     note="Trusted: Coq kernel + vm_compute, extraction (ExtrOcamlBasic) cross-checked against vm_compute on a sample and on the non-zero verdicts, the Python harness mapping live fggs objects to model values. weights_to_json is modelled by its dense result; json.dumps/loads run but are not modelled. Defects F10, F19, F20 and F21 found by this check were repaired in /repo (known_findings.json: fixed; no known finding is left for C14); the behaviour before the repair of F21 is kept as *_old definitions with its refutation.",
     technique="Coq proof (model + theorems) + model/implementation correspondence with verified oracles",
     design_ref="DESIGN.md section 6, C14")
